@@ -28,7 +28,7 @@ for f in sorted(glob.glob(os.path.join(V, "seeded", "*", "meta.json"))):
 t2 = "\n".join(rows)
 p = os.path.join(V, "DESIGN.md")
 s = open(p).read()
-s = re.sub(r"<!-- PROPS-TABLE-BEGIN -->.*?<!-- PROPS-TABLE-END -->", "<!-- PROPS-TABLE-BEGIN -->\n" + t1 + "\n<!-- PROPS-TABLE-END -->", s, flags=re.S)
-s = re.sub(r"<!-- SEEDED-TABLE-BEGIN -->.*?<!-- SEEDED-TABLE-END -->", "<!-- SEEDED-TABLE-BEGIN -->\n" + t2 + "\n<!-- SEEDED-TABLE-END -->", s, flags=re.S)
+s = re.sub(r"<!-- PROPS-TABLE-BEGIN -->.*?<!-- PROPS-TABLE-END -->", lambda m: "<!-- PROPS-TABLE-BEGIN -->\n" + t1 + "\n<!-- PROPS-TABLE-END -->", s, flags=re.S)
+s = re.sub(r"<!-- SEEDED-TABLE-BEGIN -->.*?<!-- SEEDED-TABLE-END -->", lambda m: "<!-- SEEDED-TABLE-BEGIN -->\n" + t2 + "\n<!-- SEEDED-TABLE-END -->", s, flags=re.S)
 open(p, "w").write(s)
 print("tables written")
